@@ -471,6 +471,7 @@ def check_transform(res, cls, T, X, batch, labels, forward_ref=None, sort_forwar
                     _fail(res, "ladj", "mismatch", dict(d, reported=float(lred), autodiff=o[0], tol=tol))
                 labels.add("ladj:checked")
         # (2) inverse
+        itol = None
         xi, e = _try(lambda: T.inv(y1))
         if e is not None:
             _fail(res, "inverse", "", d, e)
@@ -482,11 +483,11 @@ def check_transform(res, cls, T, X, batch, labels, forward_ref=None, sort_forwar
             labels.add("inverse:illcond")
         else:
             ya = np.maximum(1.0, np.abs(arr(outmap(y1)).reshape(-1)))
-            tol = 1e-10 * np.maximum(1.0, np.abs(arr(x1))) + 1e3 * EPS * (o[2] @ ya)
+            tol = itol = 1e-10 * np.maximum(1.0, np.abs(arr(x1))) + 1e3 * EPS * (o[2] @ ya)
             if tuple(xi.shape) != tuple(x1.shape) or not np.all(np.abs(arr(xi) - arr(x1)) <= tol):
                 _fail(res, "inverse", "mismatch", dict(d, inverse=xi.tolist(), maxtol=float(np.max(tol))))
             labels.add("inverse:checked")
-        per.append((y1, lred, xi))
+        per.append((y1, lred, xi, itol))
     # (5) batched == per slice
     if batch:
         d = {"x": X.tolist()}
@@ -513,7 +514,17 @@ def check_transform(res, cls, T, X, batch, labels, forward_ref=None, sort_forwar
                 _fail(res, "batched_inverse", "not_provided", d, e)
             else:
                 want = torch.stack([p[2] for p in per])
-                if not _close(Xi, want, 1e-11):
+                # equal to the per-slice inverses, or at least as close to the exact x as they are / as the
+                # conditioning of the inverse allows: with cache_size=1 torch returns the cached x itself for
+                # the y it has just produced, while the per-slice inverses carry their legitimate rounding error
+                ok = _close(Xi, want, 1e-11)
+                if not ok and tuple(Xi.shape) == tuple(rows.shape) and bool(torch.all(torch.isfinite(Xi))):
+                    allow = np.abs(arr(want) - arr(rows))
+                    for i, p_ in enumerate(per):
+                        if p_[3] is not None:
+                            allow[i] = np.maximum(allow[i], p_[3])
+                    ok = bool(np.all(np.abs(arr(Xi) - arr(rows)) <= allow))
+                if not ok:
                     _fail(res, "batched_inverse", "mismatch", dict(d, batched=Xi.tolist(), per_slice=want.tolist()))
     return per
 
